@@ -1,16 +1,204 @@
 /-
-C13 — property theorems (see DESIGN.md §7 C13). First theorems; the refinement
-theorems are being added.
+C13 — `ska weed` removes exactly the rows whose split k-mer is in the weed set
+(or, with `--reverse`, keeps exactly those), and touches nothing else
+(see DESIGN.md §7 C13).
+
+* `T13_exact`  refinement: `abs (weed a) = Table.weed (abs a)`, shape invariant, counts aligned
+* `T13_partition`  weed / reverse-weed partition the rows; key sets disjoint
+* `T13_idem`  weeding twice = weeding once
+* `T13_mode`  the `weed` mode with threshold 0 and default flags runs no filter
+* `T13_membership_only`  only membership in the weed list matters
 -/
 import SkaModel.Spec.Abs
+import SkaModel.Lemmas.ZipFilter
 
 namespace SkaModel.Props.C13
 
-open SkaModel SkaModel.Spec
+open SkaModel SkaModel.Spec SkaModel.ZipFilter
 
 /-- weeding never changes the sample names, k or strand mode -/
 theorem T13_names (a : Arr) (ks : List Nat) (rev : Bool) :
     (a.weed ks rev).names = a.names ∧ (a.weed ks rev).k = a.k ∧ (a.weed ks rev).rc = a.rc := by
   simp [Arr.weed]
+
+/-! ### The row test -/
+
+/-- the Rust row test `(!reverse && !found) || (reverse && found)` is `found == reverse` -/
+theorem keep_test (found rev : Bool) : ((!rev && !found) || (rev && found)) = (found == rev) := by
+  cases found <;> cases rev <;> rfl
+
+/-- the rows `weed` keeps, as one filter over the zipped containers -/
+def keptRows (a : Arr) (ks : List Nat) (rev : Bool) : List ((Nat × List UInt8) × Nat) :=
+  ((a.kmers.zip a.variants).zip a.counts).filter (fun krc => ks.contains krc.1.1 == rev)
+
+theorem weed_eq (a : Arr) (ks : List Nat) (rev : Bool) :
+    a.weed ks rev = { a with kmers := (keptRows a ks rev).map (·.1.1)
+                             variants := (keptRows a ks rev).map (·.1.2)
+                             counts := (keptRows a ks rev).map (·.2) } := by
+  simp only [Arr.weed, keptRows, keep_test]
+
+/-- the three containers of the result, zipped, are exactly the kept triples:
+counts (and cells) stay attached to their own k-mer -/
+theorem weed_zip3 (a : Arr) (ks : List Nat) (rev : Bool) :
+    ((a.weed ks rev).kmers.zip (a.weed ks rev).variants).zip (a.weed ks rev).counts
+      = ((a.kmers.zip a.variants).zip a.counts).filter (fun krc => ks.contains krc.1.1 == rev) := by
+  rw [weed_eq]; exact rezip3 _
+
+theorem weed_rows (a : Arr) (h : a.WF) (ks : List Nat) (rev : Bool) :
+    (a.weed ks rev).kmers.zip (a.weed ks rev).variants
+      = (a.kmers.zip a.variants).filter (fun r => ks.contains r.1 == rev) := by
+  have hlen : (a.kmers.zip a.variants).length ≤ a.counts.length := by
+    simp [List.length_zip, h.lenV, h.lenC]
+  have := map_fst_filter_zip (fun r : Nat × List UInt8 => ks.contains r.1 == rev)
+    (a.kmers.zip a.variants) a.counts hlen
+  rw [← this, weed_eq]
+  simp only [keptRows]
+  generalize List.filter _ _ = l
+  induction l with
+  | nil => rfl
+  | cons x xs ih => simp_all
+
+theorem weed_kmers (a : Arr) (h : a.WF) (ks : List Nat) (rev : Bool) :
+    (a.weed ks rev).kmers = a.kmers.filter (fun key => ks.contains key == rev) := by
+  have h1 : (a.weed ks rev).kmers = ((a.weed ks rev).kmers.zip (a.weed ks rev).variants).map (·.1) := by
+    rw [List.map_fst_zip]; simp [Arr.weed]
+  rw [h1, weed_rows a h]
+  exact map_fst_filter_zip (fun key => ks.contains key == rev) a.kmers a.variants (by simp [h.lenV])
+
+/-! ### T13_exact -/
+
+theorem weed_abs (a : Arr) (h : a.WF) (ks : List Nat) (rev : Bool) :
+    (a.weed ks rev).abs = a.abs.weed ks rev := by
+  simp only [Arr.abs, Table.weed, Table.filterRows, weed_rows a h]
+  simp [Arr.weed]
+
+theorem weed_WF (a : Arr) (h : a.WF) (ks : List Nat) (rev : Bool) : (a.weed ks rev).WF := by
+  refine ⟨?_, ?_, ?_, ?_⟩
+  · simp [Arr.weed]
+  · simp [Arr.weed]
+  · intro row hrow
+    have hn : (a.weed ks rev).names = a.names := (T13_names a ks rev).1
+    rw [hn]
+    apply h.rowLen
+    rw [weed_eq] at hrow
+    simp only [List.mem_map] at hrow
+    obtain ⟨x, hx, rfl⟩ := hrow
+    have hx' := (List.mem_filter.mp hx).1
+    obtain ⟨⟨k, v⟩, c⟩ := x
+    exact (List.of_mem_zip (List.of_mem_zip hx').1).2
+  · rw [weed_kmers a h]
+    exact h.nodup.sublist List.filter_sublist
+
+/-- **C13, refinement.** On a well-formed array, `weed` is the table operation
+"keep the rows whose key is in the weed set exactly when `rev`" (cells unchanged),
+the result is well-formed, and the per-row counts stay attached to their rows:
+the zipped (k-mer, cells, count) triples of the result are the kept triples of the input. -/
+theorem T13_exact (a : Arr) (h : a.WF) (ks : List Nat) (rev : Bool) :
+    (a.weed ks rev).abs = a.abs.weed ks rev
+    ∧ (a.weed ks rev).WF
+    ∧ ((a.weed ks rev).kmers.zip (a.weed ks rev).variants).zip (a.weed ks rev).counts
+        = ((a.kmers.zip a.variants).zip a.counts).filter (fun krc => ks.contains krc.1.1 == rev)
+    ∧ (a.weed ks rev).kmers.zip (a.weed ks rev).counts
+        = (a.kmers.zip a.counts).filter (fun kc => ks.contains kc.1 == rev) :=
+  ⟨weed_abs a h ks rev, weed_WF a h ks rev, weed_zip3 a ks rev, by
+    have h3 := weed_zip3 a ks rev
+    have hw := weed_WF a h ks rev
+    -- project the triple statement on (k-mer, count)
+    have e1 := zip_proj13 (a.weed ks rev).kmers (a.weed ks rev).variants (a.weed ks rev).counts
+      (by simp [hw.lenV])
+    have e2 := zip_proj13 a.kmers a.variants a.counts (by simp [h.lenV])
+    rw [e1, h3, e2, List.filter_map]
+    rfl⟩
+
+/-! ### T13_partition -/
+
+/-- **C13, partition.** Weeding and reverse-weeding with the same list split the rows:
+together they are a permutation of the input rows, and no key is in both outputs. -/
+theorem T13_partition (a : Arr) (h : a.WF) (ks : List Nat) :
+    ((a.weed ks false).abs.rows ++ (a.weed ks true).abs.rows).Perm a.abs.rows
+    ∧ ∀ key, key ∈ (a.weed ks false).abs.keys → key ∉ (a.weed ks true).abs.keys := by
+  rw [weed_abs a h, weed_abs a h]
+  constructor
+  · simp only [Table.weed, Table.filterRows]
+    have := List.filter_append_perm (fun r : Nat × List UInt8 => ks.contains r.1 == false) a.abs.rows
+    have e : (fun r : Nat × List UInt8 => ks.contains r.1 == true)
+        = (fun r => !(ks.contains r.1 == false)) := by
+      funext r; cases ks.contains r.1 <;> rfl
+    rw [e]; exact this
+  · intro key h1 h2
+    simp only [Table.keys, Table.weed, Table.filterRows, List.mem_map, List.mem_filter] at h1 h2
+    obtain ⟨r1, ⟨_, hr1⟩, rfl⟩ := h1
+    obtain ⟨r2, ⟨_, hr2⟩, e⟩ := h2
+    rw [e] at hr2
+    simp at hr1 hr2
+    exact hr1 hr2
+
+/-- every input key ends up in exactly one of the two outputs -/
+theorem T13_partition_keys (a : Arr) (h : a.WF) (ks : List Nat) (key : Nat) (hk : key ∈ a.abs.keys) :
+    (key ∈ (a.weed ks false).abs.keys ∧ ¬ key ∈ ks) ∨ (key ∈ (a.weed ks true).abs.keys ∧ key ∈ ks) := by
+  rw [weed_abs a h, weed_abs a h]
+  simp only [Table.keys, Table.weed, Table.filterRows, List.mem_map, List.mem_filter] at hk ⊢
+  obtain ⟨r, hr, rfl⟩ := hk
+  by_cases hm : r.1 ∈ ks
+  · exact Or.inr ⟨⟨r, ⟨hr, by simp [hm]⟩, rfl⟩, hm⟩
+  · exact Or.inl ⟨⟨r, ⟨hr, by simp [hm]⟩, rfl⟩, hm⟩
+
+/-! ### T13_idem -/
+
+/-- **C13, idempotence.** (Holds for every array; well-formedness is not needed.) -/
+theorem T13_idem (a : Arr) (ks : List Nat) (rev : Bool) :
+    (a.weed ks rev).weed ks rev = a.weed ks rev := by
+  have h3 := weed_zip3 a ks rev
+  rw [weed_eq (a.weed ks rev)]
+  simp only [keptRows, h3, List.filter_filter, Bool.and_self]
+  rw [weed_eq a]
+  simp only [keptRows]
+
+/-! ### T13_mode -/
+
+/-- **C13, mode.** With threshold 0 and the default flags the `weed` mode runs no filter:
+its output is exactly `weed` of the input (or the input itself without a weed file). -/
+theorem T13_mode (a : Arr) (ks : List Nat) (rev famb : Bool) :
+    Modes.weed a (some ks) rev 0 famb .noFilter false false = a.weed ks rev
+    ∧ Modes.weed a none rev 0 famb .noFilter false false = a := by
+  have hne : (FilterType.noFilter != FilterType.noFilter) = false := by decide
+  constructor <;> simp [Modes.weed, hne]
+
+/-! ### T13_membership_only -/
+
+/-- **C13.** Only membership in the weed list matters: order and multiplicity of the
+weed k-mers are irrelevant. -/
+theorem T13_membership_only (a : Arr) (ks ks' : List Nat) (rev : Bool)
+    (hmem : ∀ x, x ∈ ks ↔ x ∈ ks') : a.weed ks rev = a.weed ks' rev := by
+  have hc : ∀ x, ks.contains x = ks'.contains x := by
+    intro x; simp only [List.contains_eq_mem]; exact decide_eq_decide.mpr (hmem x)
+  simp only [Arr.weed, hc]
+
+/-- in particular the weed list may be deduplicated or permuted -/
+theorem T13_eraseDups (a : Arr) (ks : List Nat) (rev : Bool) :
+    a.weed ks.eraseDups rev = a.weed ks rev :=
+  T13_membership_only a _ _ rev (fun _ => List.mem_eraseDups)
+
+theorem T13_perm (a : Arr) (ks ks' : List Nat) (rev : Bool) (hp : ks.Perm ks') :
+    a.weed ks rev = a.weed ks' rev :=
+  T13_membership_only a _ _ rev (fun _ => hp.mem_iff)
+
+/-! ### Non-vacuity: a concrete 3-sample, 6-row table -/
+
+def exampleArr : Arr := Arr.mk 3 true ["x", "y", "z"] [1, 2, 3, 4, 5, 6]
+    [[65, 65, 65], [65, 67, 45], [45, 45, 84], [71, 71, 45], [67, 84, 71], [84, 84, 84]]
+    [3, 2, 1, 2, 3, 3] 64
+
+theorem exampleArr_WF : exampleArr.WF := ⟨by decide, by decide, by decide, by decide⟩
+
+example : (exampleArr.weed [2, 4, 99, 2] false).kmers = [1, 3, 5, 6] := by decide
+example : (exampleArr.weed [2, 4, 99, 2] true).abs.rows = [(2, [65, 67, 45]), (4, [71, 71, 45])] := by
+  decide
+example : (exampleArr.weed [2, 4, 99, 2] true).counts = [2, 2] := by decide
+example : exampleArr.weed [2, 4, 2] true = exampleArr.weed [4, 2] true :=
+  T13_membership_only _ _ _ _ (by
+    intro x; simp only [List.mem_cons, List.not_mem_nil, or_false]; omega)
+/-- the hypotheses of the refinement theorem are satisfiable -/
+example := T13_exact exampleArr exampleArr_WF [2, 4, 99, 2] true
 
 end SkaModel.Props.C13
